@@ -558,13 +558,18 @@ func main() {
 			return
 		}
 		var rp struct{ Line string }
-		var hw struct{ HttpWholeServer, ShutdownWait bool }
+		var hw struct {
+			HttpWholeServer, ShutdownWait bool
+			ShutdownEvent                 string
+		}
 		vrt.LoadReplay(&rp)
 		vrt.LoadReplay(&hw)
 		if hw.HttpWholeServer {
 			httpWholeServer(res)
 		} else if hw.ShutdownWait {
 			checkShutdownWait()
+		} else if hw.ShutdownEvent != "" {
+			runShutdownEventCase(hw.ShutdownEvent)
 		} else {
 			enumLine(rp.Line)
 		}
@@ -616,6 +621,9 @@ func main() {
 		if *vrt.Shard == 0 && !vsched.Free() && vsched.FreeRuns == 0 {
 			httpWholeServer(res)
 			checkShutdownWait()
+			for _, st := range []string{gostatsd.StatserInternal, gostatsd.StatserLogging, gostatsd.StatserNull} {
+				runShutdownEventCase(st)
+			}
 		}
 		res.SetDistinctKeys(accepted)
 		res.States = int64(len(accepted))
